@@ -366,4 +366,6 @@ func TestC09(t *testing.T) {
 		c.Case(false, "", "directed:short-out")
 	}
 	_ = ran
+
+	c09Concurrent(c, t)
 }
